@@ -4,6 +4,7 @@ import threading
 
 REGISTRY = {}
 _LOCK = threading.Lock()
+HOOK = None      # optional observer: HOOK(kind, key, delta) before the registry is updated (harness/p_c20q.py)
 
 
 class _Child(object):
@@ -12,12 +13,16 @@ class _Child(object):
         self.key = key
 
     def inc(self, v=1):
+        if HOOK is not None:
+            HOOK(self.kind, self.key, v)
         with _LOCK:
             REGISTRY[self.key] = REGISTRY.get(self.key, 0) + v
 
     def dec(self, v=1):
         if self.kind != "gauge":
             raise AttributeError("dec on a counter")
+        if HOOK is not None:
+            HOOK(self.kind, self.key, -v)
         with _LOCK:
             REGISTRY[self.key] = REGISTRY.get(self.key, 0) - v
             HISTORY.append((self.key, REGISTRY[self.key]))
